@@ -368,7 +368,7 @@ pub fn run_check(def: &CheckDef, tier: Tier, seed: u64) -> i32 {
                 };
                 let prog = std::fs::read_to_string(out.with_extension("progress")).ok().and_then(|s| s.trim().parse::<u64>().ok());
                 match prog {
-                    Some(idx) if rounds < 40 && !skips[i].contains_key(&idx) => {
+                    Some(idx) if rounds < 4 && !skips[i].contains_key(&idx) => {
                         skips[i].insert(idx, why.clone());
                         let detail = std::fs::read_to_string(out.with_extension("detail")).ok().and_then(|s| serde_json::from_str::<Value>(&s).ok()).unwrap_or(Value::Null);
                         crashed.push((i, idx, why, detail));
